@@ -334,6 +334,34 @@ example :
       = some (some (.node [("a", .leaf 10), ("b", .leaf 20)])) := by
   simp [multithreadApply, submitKids, submitTree, runTasks, rebuildKids, rebuildTree, Store.result, dropNode]
 
+/-- **shared / memmap `out=`** (every worker writes its result into *its own piece* of the buffer,
+    `None` results skipped after the repair): for consecutive spans covering the buffer the final
+    content is the same per-chunk specification `fill` as with a regular buffer — any pattern of
+    `None`s, any partition. -/
+theorem shared_out_correct (spans : List (Nat × Nat)) (results : List (Option (List β))) (out : List β)
+    (hc : Consecutive 0 spans out.length) (hl : spans.length = results.length)
+    (hw : ∀ x ∈ spans.zip results, ∀ item, x.2 = some item → item.length = x.1.2 - x.1.1) :
+    mapSharedOut out ((spans.map fun p => Piece.rng p.1 p.2).zip results)
+      = some (fill out ((spans.map fun p => p.2 - p.1).zip results)) := by
+  rw [mapSharedOut_eq_reassemble spans results 0 out.length out hc (Nat.le_refl _) hl hw]
+  have hsum : ∀ (sp : List (Nat × Nat)) (a b : Nat), Consecutive a sp b →
+      a + (sp.map fun p => p.2 - p.1).sum = b := fun sp a b h =>
+    (narrows_of_consecutive 0 (⟨[], fun _ => ()⟩ : T Unit) sp a b h).2
+  have hws : WellSized ((spans.map fun p => p.2 - p.1).zip results) := by
+    intro x hx item hi
+    obtain ⟨i, hi1, hi2⟩ := List.getElem_of_mem hx
+    simp only [List.getElem_zip, List.getElem_map] at hi2
+    have hmem : (spans[i]'(by simp at hi1; omega), results[i]'(by simp at hi1; omega)) ∈ spans.zip results := by
+      apply List.mem_iff_getElem.2
+      exact ⟨i, by simp at hi1 ⊢; omega, by simp⟩
+    have := hw _ hmem item (by rw [← hi2] at hi; simpa using hi)
+    rw [← hi2]; simpa using this
+  have hlen : ((spans.map fun p => p.2 - p.1).zip results).map (·.1) = spans.map fun p => p.2 - p.1 := by
+    rw [List.map_fst_zip]; simp [hl]
+  have := reassembleOut_spec ((spans.map fun p => p.2 - p.1).zip results) 0 out hws (by
+    rw [hlen]; have := hsum spans 0 out.length hc; omega)
+  simpa using this
+
 /-! ## 4. the rows view is faithful: any rank, any dim -/
 
 /-- the slice of a coordinate-map tensor that a span denotes -/
